@@ -62,8 +62,15 @@ fn reset() {
 }
 
 // Parent wakers: the data pointer is the parent index; no allocation, no loom objects.
+// Cloning a waker is user code that takes time: it is a scheduling point, so that loom also runs
+// the other threads while the deque is in the middle of cloning its parent waker (e.g. while it
+// holds its parent-waker lock).
 static PVT: RawWakerVTable = RawWakerVTable::new(
-    |d| RawWaker::new(d, &PVT),
+    |d| {
+        loom::thread::yield_now();
+        gate_in_clone();
+        RawWaker::new(d, &PVT)
+    },
     |d| {
         PW[d as usize].fetch_add(1, O::SeqCst);
     },
@@ -72,6 +79,39 @@ static PVT: RawWakerVTable = RawWakerVTable::new(
     },
     |_| {},
 );
+
+/// "Poll while a waker clone is in progress" gadget (programs with `gate=1`): loom's DPOR does not
+/// by itself place A's poll between B's lock and unlock of the parent-waker mutex (the critical
+/// section contains no conflicting access), so a `try_lock`-failure path would never be seen. In
+/// gate mode B's FIRST parent clone inside a wake announces itself and waits until A is about to
+/// poll; A waits for that announcement (or for B's end) before its concurrent poll. Both orders of
+/// "A's lock attempt" and "B's unlock" are then explored by loom through the flag accesses.
+struct Gate {
+    b_in_clone: loom::sync::atomic::AtomicBool,
+    a_polling: loom::sync::atomic::AtomicBool,
+    b_done: loom::sync::atomic::AtomicBool,
+    used: AtomicBool,
+}
+static GATE: StdMutex<Option<std::sync::Arc<Gate>>> = StdMutex::new(None);
+static IN_B_WAKE: AtomicBool = AtomicBool::new(false);
+
+fn gate() -> Option<std::sync::Arc<Gate>> {
+    GATE.lock().unwrap_or_else(|p| p.into_inner()).clone()
+}
+
+fn gate_in_clone() {
+    if !IN_B_WAKE.load(O::SeqCst) {
+        return;
+    }
+    let Some(g) = gate() else { return };
+    if g.used.swap(true, O::SeqCst) {
+        return;
+    }
+    g.b_in_clone.store(true, O::SeqCst);
+    while !g.a_polling.load(O::SeqCst) {
+        loom::thread::yield_now();
+    }
+}
 
 fn parent(i: usize) -> Waker {
     // SAFETY: the vtable functions use the data pointer as an integer only.
@@ -128,12 +168,14 @@ struct Program {
     a: Vec<usize>,
     end: End,
     complete_at: usize,
+    /// see `Gate`
+    gate: bool,
 }
 
 impl Program {
     fn name(&self) -> String {
         format!(
-            "b={}:a={}:end={}:fut={}",
+            "b={}:a={}:end={}:fut={}:gate={}",
             self.b.iter().collect::<String>(),
             self.a.iter().map(|p| char::from(b'1' + *p as u8)).collect::<String>(),
             match self.end {
@@ -141,12 +183,13 @@ impl Program {
                 End::DropA => "dropA",
                 End::DropC => "dropC",
             },
-            if self.complete_at == 0 { "never" } else { "second" }
+            if self.complete_at == 0 { "never" } else { "second" },
+            u8::from(self.gate)
         )
     }
 
     fn parse(s: &str) -> Program {
-        let mut p = Program { b: vec![], a: vec![], end: End::Keep, complete_at: 0 };
+        let mut p = Program { b: vec![], a: vec![], end: End::Keep, complete_at: 0, gate: false };
         for part in s.split(':') {
             let (k, v) = part.split_once('=').expect("k=v");
             match k {
@@ -160,6 +203,7 @@ impl Program {
                     }
                 }
                 "fut" => p.complete_at = if v == "second" { 2 } else { 0 },
+                "gate" => p.gate = v == "1",
                 _ => panic!("bad program part {part}"),
             }
         }
@@ -181,6 +225,17 @@ fn model_body(p: &Program) -> String {
     oracle(first.is_pending(), "harness", || "first poll not pending".into());
     let handed = CAPTURED.lock().unwrap().take().expect("future captured its waker");
 
+    IN_B_WAKE.store(false, O::SeqCst);
+    *GATE.lock().unwrap_or_else(|p| p.into_inner()) = if p.gate {
+        Some(std::sync::Arc::new(Gate {
+            b_in_clone: loom::sync::atomic::AtomicBool::new(false),
+            a_polling: loom::sync::atomic::AtomicBool::new(false),
+            b_done: loom::sync::atomic::AtomicBool::new(false),
+            used: AtomicBool::new(false),
+        }))
+    } else {
+        None
+    };
     let b_ops = p.b.clone();
     let n_wakes = b_ops.iter().filter(|c| matches!(c, 'r' | 'w')).count();
     let tb = loom::thread::spawn(move || {
@@ -197,23 +252,38 @@ fn model_body(p: &Program) -> String {
                 }
                 'r' => {
                     WAKE_BEGINS.lock().unwrap().push(POLLS_STARTED.load(O::SeqCst));
+                    IN_B_WAKE.store(true, O::SeqCst);
                     held.last().expect("valid program").wake_by_ref();
+                    IN_B_WAKE.store(false, O::SeqCst);
                 }
                 'w' => {
                     WAKE_BEGINS.lock().unwrap().push(POLLS_STARTED.load(O::SeqCst));
+                    IN_B_WAKE.store(true, O::SeqCst);
                     held.pop().expect("valid program").wake();
+                    IN_B_WAKE.store(false, O::SeqCst);
                 }
                 'd' => drop(held.pop().expect("valid program")),
                 _ => unreachable!(),
             }
         }
         drop(held);
+        if let Some(g) = gate() {
+            g.b_done.store(true, O::SeqCst);
+        }
     });
 
     // A's concurrent part.
     let mut last_parent = 0_usize;
     let mut wakes_at_last_begin = 0_usize;
-    for &pa in &p.a {
+    for (i, &pa) in p.a.iter().enumerate() {
+        if i == 0 {
+            if let Some(g) = gate() {
+                while !g.b_in_clone.load(O::SeqCst) && !g.b_done.load(O::SeqCst) {
+                    loom::thread::yield_now();
+                }
+                g.a_polling.store(true, O::SeqCst);
+            }
+        }
         last_parent = pa;
         wakes_at_last_begin = PW[pa].load(O::SeqCst);
         let w = parent(pa);
@@ -369,7 +439,12 @@ fn programs() -> Vec<Program> {
                     if a.len() == 2 && b.len() > 2 {
                         continue;
                     }
-                    v.push(Program { b: b.clone(), a: a.clone(), end, complete_at });
+                    v.push(Program { b: b.clone(), a: a.clone(), end, complete_at, gate: false });
+                    // Gate variant: one concurrent poll placed while B's first wake is cloning the
+                    // parent waker (only meaningful if B wakes and the deque is kept).
+                    if a.len() == 1 && end == End::Keep && complete_at == 0 && b.iter().any(|c| matches!(c, 'r' | 'w')) {
+                        v.push(Program { b: b.clone(), a: a.clone(), end, complete_at, gate: true });
+                    }
                 }
             }
         }
